@@ -74,7 +74,7 @@ theorem navigateWith_eq_rfc (honour : Bool) (b : URL) (r : Ref) (hb : AbsBase b)
     rcases hdf with h | h
     · exact Or.inl h
     · exact Or.inr ((dotFree_root segs).1 (hsegs ▸ h))
-  have hpath := navigate_path_eq_rfc b segs r hr hsegs hns b.toRef (by simp [hbase]) (by simp [hbase]) hdf'
+  have hpath := navigate_path_eq_rfc b segs r hr hsegs hns b.toRef (Or.inl (by simp [hbase])) (by simp [hbase]) hdf'
   have hquery := relQuery_eq_rfc honour b b.toRef r hr (by simp [hbase]) hcq hq
   rw [navigate_rel honour b r hb]
   have hN : (resolvePathParts (relParts b r)) = [] :: process [] (relSegs segs r) := by
@@ -410,7 +410,7 @@ theorem navigateWith_eq_normalized_rfc (honour : Bool) (b : URL) (r : Ref) (hb :
   obtain ⟨segs, hsegs⟩ := hb.rooted
   have hns : ∀ s ∈ segs, NoSlash s := fun s hs => hb.noSlash s (by simp [hsegs, hs])
   have hbase := toRef_rooted b segs hb.host_ne hsegs
-  have hpath := navigate_path_eq_normalized_rfc b segs r hr hsegs hns b.toRef (by simp [hbase]) (by simp [hbase])
+  have hpath := navigate_path_eq_normalized_rfc b segs r hr hsegs hns b.toRef (Or.inl (by simp [hbase])) (by simp [hbase])
   have hquery := relQuery_eq_rfc honour b b.toRef r hr (by simp [hbase]) hcq hq
   rw [navigate_rel honour b r hb]
   have hN : (resolvePathParts (relParts b r)) = [] :: process [] (relSegs segs r) := by
@@ -436,8 +436,8 @@ theorem resolve_target_path_normal (b : URL) (r : Ref) (hb : AbsBase b) (hr : Re
     rcases hdf with h | h
     · exact Or.inl h
     · exact Or.inr ((dotFree_root segs).1 (hsegs ▸ h))
-  have h1 := navigate_path_eq_rfc b segs r hr hsegs hns b.toRef (by simp [hbase]) (by simp [hbase]) hdf'
-  have h2 := navigate_path_eq_normalized_rfc b segs r hr hsegs hns b.toRef (by simp [hbase]) (by simp [hbase])
+  have h1 := navigate_path_eq_rfc b segs r hr hsegs hns b.toRef (Or.inl (by simp [hbase])) (by simp [hbase]) hdf'
+  have h2 := navigate_path_eq_normalized_rfc b segs r hr hsegs hns b.toRef (Or.inl (by simp [hbase])) (by simp [hbase])
   unfold Ref.normalized
   rw [← h2, h1]
 
@@ -603,6 +603,116 @@ example : ∀ t ∈ ["../x/./y?k=1&k".toList, "?".toList, "#top".toList, "..//z"
 example : (URL.navigateAllWith true exBaseMulti
       (["../x/./y?k=1&k".toList, "?".toList, "#top".toList, "..//z".toList].map URL.ofText)).toText
     = "http://a//z".toList := by decide
+
+/-! ### bases WITHOUT a host (round 3c): `file:///a/b`, `foo:/a/b`, `urn:/x` - RFC 5.2.3 "merge" with an empty or an
+    undefined base authority -/
+
+/-- a base without a host whose path is rooted and NOT empty (at least one segment after the root marker: without a
+    host the code does not re-root the merged path - and for an undefined authority neither does RFC 5.2.3), scheme
+    in lower case.  Userinfo / port are arbitrary (boltons keeps them even without a host). -/
+structure HostlessBase (b : URL) : Prop where
+  host_nil : b.host = []
+  rooted : ∃ s segs, b.parts = [] :: s :: segs
+  noSlash : ∀ s ∈ b.parts, NoSlash s
+  lowerScheme : lower b.scheme = b.scheme
+
+/-- `B` is the base as RFC 3986 sees it: scheme, path and query of `b`.  The authority is left open - undefined for
+    `foo:/a/b`, defined and empty for `file:///a/b`; 5.2.2 only hands it on and 5.2.3 does not look at it when the
+    base path is not empty. -/
+def RefOfBase (b : URL) (B : Ref) : Prop :=
+  B.scheme = optOfStr b.scheme ∧ B.path = b.pathText ∧ B.query = optOfStr (queryText b.query)
+
+instance (b : URL) (B : Ref) : Decidable (RefOfBase b B) := by unfold RefOfBase; infer_instance
+
+/-- **navigate = RFC 5.2 for bases without a host**, component by component (how `to_text()` writes an empty
+    authority is property C06's business, so the statement is about the components): scheme, path, query and
+    fragment of the result are those of the RFC target, the target's authority is the base's, and the result has
+    no host and the base's userinfo / port.  Either version of the code; same side conditions as
+    `navigateWith_eq_rfc`. -/
+theorem navigateWith_eq_rfc_hostless (honour : Bool) (b : URL) (B r : Ref) (hb : HostlessBase b)
+    (hB : RefOfBase b B) (hr : RelRef r) (hdf : r.path ≠ [] ∨ DotFree b.parts) (hcq : CanonQ r.query)
+    (hq : honour = true ∨ ¬ (r.path = [] ∧ r.query = some [] ∧ queryText b.query ≠ [])) :
+    optOfStr (URL.navigateWith honour b (URL.ofRelRef r)).scheme = (resolve B r).scheme ∧
+    (resolve B r).authority = B.authority ∧
+    ((URL.navigateWith honour b (URL.ofRelRef r)).host = [] ∧
+      (URL.navigateWith honour b (URL.ofRelRef r)).user = b.user ∧
+      (URL.navigateWith honour b (URL.ofRelRef r)).pass = b.pass ∧
+      (URL.navigateWith honour b (URL.ofRelRef r)).port = b.port) ∧
+    (URL.navigateWith honour b (URL.ofRelRef r)).pathText = (resolve B r).path ∧
+    dropEmpty (optOfStr (queryText (URL.navigateWith honour b (URL.ofRelRef r)).query)) = dropEmpty (resolve B r).query ∧
+    dropEmpty (optOfStr (URL.navigateWith honour b (URL.ofRelRef r)).fragment) = dropEmpty (resolve B r).fragment := by
+  obtain ⟨s0, segs0, hsegs⟩ := hb.rooted
+  have hns : ∀ s ∈ s0 :: segs0, NoSlash s := fun s hs => hb.noSlash s (by rw [hsegs]; exact List.mem_cons_of_mem _ hs)
+  have hlh : lower b.host = b.host := by rw [hb.host_nil]; rfl
+  have hpathB : B.path = flat (s0 :: segs0) := by rw [hB.2.1, URL.pathText, hsegs, joinSlash_root]
+  have hdf' : r.path ≠ [] ∨ DotFree (s0 :: segs0) := by
+    rcases hdf with h | h
+    · exact Or.inl h
+    · exact Or.inr ((dotFree_root _).1 (hsegs ▸ h))
+  have hpath := navigate_path_eq_rfc b (s0 :: segs0) r hr hsegs hns B (Or.inr (by simp)) hpathB hdf'
+  have hquery := relQuery_eq_rfc honour b B r hr hB.2.2 hcq hq
+  rw [navigate_rel_rooted honour b r (s0 :: segs0) hsegs (Or.inr (by simp)) hb.lowerScheme hlh]
+  refine ⟨?_, resolve_rel_authority _ _ hr, ⟨hb.host_nil, rfl, rfl, rfl⟩, ?_, hquery, ?_⟩
+  · rw [resolve_rel_scheme _ _ hr, hB.1]; rfl
+  · rw [URL.pathText, relResult_parts]; exact hpath
+  · rw [resolve_rel_fragment _ _ hr]; exact dropEmpty_optOfStr_getD r.fragment
+
+/-- `file:///a/b/c?q` (authority defined and empty) and `foo:/a/b` (authority undefined) -/
+def exBaseFile : URL := URL.ofComponents (some "file".toList) true [] [] [] false 0 "/a/b/c".toList (some "q".toList) none
+def exBaseFoo : URL := URL.ofComponents (some "foo".toList) false [] [] [] false 0 "/a/b".toList none none
+
+example : HostlessBase exBaseFile ∧ HostlessBase exBaseFoo :=
+  ⟨⟨rfl, ⟨_, _, rfl⟩, by decide, by decide⟩, ⟨rfl, ⟨_, _, rfl⟩, by decide, by decide⟩⟩
+example : RefOfBase exBaseFile ⟨some "file".toList, some [], "/a/b/c".toList, some "q".toList, none⟩ ∧
+    RefOfBase exBaseFoo ⟨some "foo".toList, none, "/a/b".toList, none, none⟩ := by decide
+example : recompose (resolve ⟨some "file".toList, some [], "/a/b/c".toList, some "q".toList, none⟩ exRef)
+    = "file:///a//g/?y#".toList := by decide
+example : (URL.navigateWith true exBaseFile (URL.ofRelRef exRef)).pathText = "/a//g/".toList ∧
+    (URL.navigateWith true exBaseFoo (URL.ofRelRef ⟨none, none, "../../../x/.".toList, none, none⟩)).pathText
+      = "/x/".toList := by decide
+
+/-- ... and as a statement about the printed text (`toRef`) for a base whose scheme takes no network location
+    (`foo:/a/b`, `urn:/x`: the authority is undefined before and after; the C06 question how an EMPTY authority is
+    printed does not arise) -/
+theorem navigateWith_eq_rfc_nonetloc (honour : Bool) (b : URL) (r : Ref) (hb : HostlessBase b)
+    (hu : b.user = []) (hsep : b.netlocSep = false) (hnn : b.usesNetloc = false) (hr : RelRef r)
+    (hdf : r.path ≠ [] ∨ DotFree b.parts) (hcq : CanonQ r.query)
+    (hq : honour = true ∨ ¬ (r.path = [] ∧ r.query = some [] ∧ queryText b.query ≠ [])) :
+    (URL.navigateWith honour b (URL.ofRelRef r)).toRef.canon = (resolve b.toRef r).canon := by
+  have hauthT : ∀ u : URL, u.user = [] → u.host = [] → u.authorityText = [] := by
+    intro u h1 h2; simp [URL.authorityText, h1, h2]
+  have hbRef : b.toRef =
+      ⟨optOfStr b.scheme, none, b.pathText, optOfStr (queryText b.query), optOfStr b.fragment⟩ := by
+    unfold URL.toRef
+    simp [hauthT b hu hb.host_nil, hnn]
+  have hB : RefOfBase b b.toRef := by rw [hbRef]; exact ⟨rfl, rfl, rfl⟩
+  have h := navigateWith_eq_rfc_hostless honour b b.toRef r hb hB hr hdf hcq hq
+  obtain ⟨hs, ha, ⟨hh, hu', _, _⟩, hp, hqq, hf⟩ := h
+  have hnn' : (URL.navigateWith honour b (URL.ofRelRef r)).usesNetloc = false := by
+    obtain ⟨s0, segs0, hsegs⟩ := hb.rooted
+    have hlh : lower b.host = b.host := by rw [hb.host_nil]; rfl
+    rw [navigate_rel_rooted honour b r (s0 :: segs0) hsegs (Or.inr (by simp)) hb.lowerScheme hlh]
+    rw [← hnn]
+    simp [URL.usesNetloc, relResult, hsep]
+    by_cases h1 : (schemePort? b.scheme).isSome = true <;> by_cases h2 : inNoNetloc b.scheme = true <;>
+      by_cases h3 : (schemePort? (afterLastPlus b.scheme)).isSome = true <;> simp [h1, h2, h3]
+  have hnRef : (URL.navigateWith honour b (URL.ofRelRef r)).toRef =
+      ⟨optOfStr (URL.navigateWith honour b (URL.ofRelRef r)).scheme, none,
+        (URL.navigateWith honour b (URL.ofRelRef r)).pathText,
+        optOfStr (queryText (URL.navigateWith honour b (URL.ofRelRef r)).query),
+        optOfStr (URL.navigateWith honour b (URL.ofRelRef r)).fragment⟩ := by
+    unfold URL.toRef
+    simp [hauthT _ (hu'.trans hu) hh, hnn']
+  rw [hnRef]
+  simp only [Ref.canon, Ref.mk.injEq]
+  refine ⟨hs, ?_, hp, ?_, ?_⟩
+  · rw [ha, hbRef]
+  · rw [dropEmpty_optOfStr] at hqq ⊢; exact hqq
+  · rw [dropEmpty_optOfStr] at hf ⊢; exact hf
+
+example : HostlessBase exBaseFoo ∧ exBaseFoo.user = [] ∧ exBaseFoo.netlocSep = false ∧ exBaseFoo.usesNetloc = false := by
+  refine ⟨⟨rfl, ⟨_, _, rfl⟩, by decide, by decide⟩, rfl, rfl, by decide⟩
+example : (URL.navigateWith true exBaseFoo (URL.ofRelRef exRef)).toText = "foo://g/?y".toList := by decide
 
 /-! ### navigate's glue: which component comes from where (any base, any non-replacing reference, either version) -/
 
